@@ -12,6 +12,7 @@
             narrowing cast; the magic and the sync marker are compared as whole arrays (no sub-range)
   HEADER    every Ok return of the builder is dominated by the write of the complete header; schema JSON is the
             configuration schema's json()
+  META      ... avro.codec is optional in the header (absent = null)                           (found F31)
   BLOCKCFG  data blocks are decoded under a fresh default configuration over the file's schema, never under the
             tightened configuration of the header (shared with C05): what any conforming writer wrote is readable
 It does NOT decide that third-party tools read the file.
